@@ -17,12 +17,14 @@ def run(ctx):
     q = ctx.quick
     r = ctx.tlc("MC_Width", "MC_Width.cfg").require_clean()
     res.add_tlc(r)
-    count = 1200 if q else 12000
+    # the last `systematic` cases are single deviations from well-formed skeletons (every key x every value class)
+    systematic = 1450
+    count = (1000 if q else 12000) + systematic
     events = []
     start = 0
     restarts = 0
     while start < count and restarts <= 25:
-        evs, rc, txt = run_harness(ctx, "pub", "TestVerifRender", {"from": start, "count": count}, timeout=3000, allow_fail=True, name="render-%d" % start)
+        evs, rc, txt = run_harness(ctx, "pub", "TestVerifRender", {"from": start, "count": count, "systematic": systematic}, timeout=3000, allow_fail=True, name="render-%d" % start)
         events += [e for e in evs if e["ev"] == "render"]
         if rc == 0:
             break
@@ -58,7 +60,7 @@ def run(ctx):
             # timing verdicts need two reproductions of the case on its own
             again = []
             for k in range(2):
-                evs2, _, _ = run_harness(ctx, "pub", "TestVerifRender", {"from": e["i"], "count": e["i"] + 1}, timeout=600, allow_fail=True, name="render-repro-%d-%d" % (e["i"], k))
+                evs2, _, _ = run_harness(ctx, "pub", "TestVerifRender", {"from": e["i"], "count": count, "systematic": systematic, "only": 1}, timeout=600, allow_fail=True, name="render-repro-%d-%d" % (e["i"], k))
                 again += [x for x in evs2 if x["ev"] == "render"]
             if len(again) < 2 or not all(x["outcome"] == "timeout" or x["ms"] > 10000 for x in again):
                 res.extra.setdefault("slow_once_not_reproduced", []).append([e["i"], e["ms"], [x["ms"] for x in again]])
